@@ -1,4 +1,5 @@
 import Clover.Proofs.StoreM
+import Clover.Proofs.Propagates
 import Clover.Model.DB
 /-! # C04 — a failed operation leaves no trace; store faults are reported -/
 namespace CV.Props.C04
@@ -45,5 +46,59 @@ theorem read_tx_pure (op : Op) (hw : op.isWrite = false) (kv : KVS) (φ : Faults
     first
     | exact execExport_state likeFn fnFam _ kv φ
     | (rw [hw]; exact CV.read_pure _ φ kv)
+
+theorem execExport_fault_reported (c : Bytes) (kv : KVS) (φ : Faults)
+    (h : (execExport likeFn fnFam c kv φ).2.2.1 = true) : (execExport likeFn fnFam c kv φ).1.isErr = true := by
+  unfold execExport at *
+  have h1 := CV.fault_reported false (Op.body likeFn fnFam (.hasCollection c)) (prop_body likeFn fnFam _) φ kv
+  have h2 := CV.fault_reported false (Op.body likeFn fnFam (.findAll { coll := c })) (prop_body likeFn fnFam _) (fun _ => false) kv
+  revert h h1 h2
+  generalize withTx false (Op.body likeFn fnFam (.hasCollection c)) φ kv = r1
+  generalize withTx false (Op.body likeFn fnFam (.findAll { coll := c })) (fun _ => false) kv = r2
+  obtain ⟨o1, s1, f1, t1⟩ := r1
+  obtain ⟨o2, s2, f2, t2⟩ := r2
+  intro h h1 h2
+  simp only at h1 h2
+  cases o1 with
+  | err e => simp [Res.isErr]
+  | ok out =>
+    have hf1 : f1 = false := by
+      cases f1 with
+      | false => rfl
+      | true => have := h1 rfl; simp [Res.isErr] at this
+    subst hf1
+    cases out <;> simp only [Res.isErr] at * <;> try rfl
+    rename_i b
+    cases b with
+    | false => rfl
+    | true =>
+      simp only [Bool.false_or] at h
+      cases o2 with
+      | err e => simp [Res.isErr]
+      | ok out2 =>
+        cases out2 <;> simp only at h ⊢ <;> (have := h2 h; simp [Res.isErr] at this)
+
+/-- A store failure is always reported: whenever a fault of ANY schedule fires at a store call the
+    operation makes (begin, get, set, delete, cursor item read, commit), the operation returns an
+    error — for every operation, every state — and (by `failed_op_no_trace`) changes nothing. -/
+theorem fault_reported (op : Op) (σ : DBState) (φ : Faults)
+    (h : (op.run likeFn fnFam σ φ).fired = true) :
+    (op.run likeFn fnFam σ φ).out.isErr = true ∧ (op.run likeFn fnFam σ φ).state = σ := by
+  have herr : (op.run likeFn fnFam σ φ).out.isErr = true := by
+    unfold Op.run at *
+    by_cases hc : σ.closed = true
+    · simp [hc] at h
+    · simp only [hc, Bool.false_eq_true, if_false] at h ⊢
+      split
+      · rfl
+      · rename_i heq
+        simp only [heq] at h
+        simp only
+        generalize op.route = op' at *
+        cases op' <;> simp only [Op.exec] at h ⊢ <;>
+          first
+          | exact CV.fault_reported _ _ (prop_body likeFn fnFam _) φ σ.kv h
+          | exact execExport_fault_reported likeFn fnFam _ σ.kv φ h
+  exact ⟨herr, failed_op_no_trace likeFn fnFam op σ φ herr⟩
 
 end CV.Props.C04
